@@ -340,6 +340,13 @@ def run(chk):
     chk.in_file(U.LAYOUT)
     prog = Program(chk.repo, [U.LAYOUT])
     flow_check(chk, prog, U.LAYOUT, CLS)
+    handler_contract(chk, mod)
+    chk.floor("D2-result-in-dest", 14)
+    chk.floor("D1-source-intact", 7)
+
+
+def handler_contract(chk, mod):
+    """the element-placement part of the handler's contract: geometry, axis roles, permutations, read-only route map"""
     fp, fu = geometry_check(chk, mod)
     comm_axis_check(chk, mod)
     swap_axes_def_check(chk, mod)
@@ -354,8 +361,6 @@ def run(chk):
                "the route map and layout tables are only read" if not muts else "; ".join(d for _, d in muts) +
                " - the stored route is shortened/changed by a transpose: the next transpose between the same layouts takes a wrong route",
                file=U.LAYOUT, func=q)
-    chk.floor("D2-result-in-dest", 14)
-    chk.floor("D1-source-intact", 7)
     chk.floor("G1-", 6)
     chk.floor("G3-", 2)
     chk.floor("P1-", 4)
